@@ -293,7 +293,7 @@ def next_range(kind: str, W: int, n: int, p: list[int]) -> tuple[int, int]:
         j = (i - 2) // 3
         if j >= p[0]:
             return (0, 0)
-        return [(0, n - 1), (0, W - 1), (0, 2)][(i - 2) % 3]
+        return [(0, n - 1), (0, W - 1), (0, len(rt.SHARD.get('br_modes', [0, 1, 2])) - 1)][(i - 2) % 3]
     if kind == 'replace_with_circuit':   # [c, q, shape, as_gate]
         return [(0, n - 1) if narrow else (-n, n - 1), (0, W - 1), (0, 3), (0, 1)][i]
     if kind == 'append_circuit':         # [ar, q0, shape, as_gate, q1]
@@ -627,7 +627,11 @@ def do_call_concrete(circ: Circuit, kind: str, a: list[int], tags: Tags) -> Outc
         pts, ops, spec = [], [], []
         for i in range(k):
             c, q, mode = a[2 + 3 * i], a[3 + 3 * i], a[4 + 3 * i]
-            if c < 0 or c >= n or q < 0 or q >= W or g[c][q] is None or mode not in (0, 1, 2):
+            br_modes = rt.SHARD.get('br_modes', [0, 1, 2])
+            if mode < 0 or mode >= len(br_modes):
+                return None
+            mode = br_modes[mode]
+            if c < 0 or c >= n or q < 0 or q >= W or g[c][q] is None:
                 return None
             old = g[c][q]
             if old.location[0] != q:
@@ -637,6 +641,11 @@ def do_call_concrete(circ: Circuit, kind: str, a: list[int], tags: Tags) -> Outc
                 loc = list(reversed(loc))
             if mode == 2:      # shrink to the first qudit
                 loc = loc[:1]
+            if mode == 3:      # widen by the first qudit outside the old location (may need a new cycle)
+                others = [x for x in range(W) if x not in loc]
+                if not others:
+                    return None
+                loc = loc + others[:1]
             t = tags.new()
             pts.append((c, q))
             ops.append(Operation(TG(t, len(loc)), loc))
